@@ -98,7 +98,9 @@ Section History.
   Variables (psat M rml rmg dens mm TK : R).
   Hypotheses (Hp : 0 < psat) (HM : 0 < M) (Hl : 0 < rml) (Hg : 0 < rmg) (Hd : 0 < dens) (Hmm : 0 < mm) (HT : TK <> 0).
   Variables (r0 : rs) (cp0 cl0 : list R) (cb : list bool).
-  Let a := ads_full psat M rml rmg.
+  (* ANY adsorbate (functions of temperature) whose constants at the kelvin temperature TK are psat, M, rml, rmg *)
+  Variable a : adsorbate RNum.
+  Hypothesis Ha : ads_full_at a TK psat M rml rmg.
   Let m := mat_full dens mm.
   Let lpm (l : lrep) (mr : mrep) := l_per_m M rml rmg dens mm l mr.
 
@@ -139,14 +141,14 @@ Section History.
     intros [T [li [pi [HK ->]]]]. destruct r as [rp rl rm rk]; cbn [r_p r_l r_m r_k] in *.
     destruct o as [p'|l'|m'|k']; cbn [apply_op rs_step r_p r_l r_m r_k].
     - (* pressure *)
-      unfold a. rewrite convert_pressure_step by (try assumption; rewrite HK; assumption).
+      rewrite (convert_pressure_step a psat) by (rewrite ?HK; try assumption; apply Ha).
       cbn [outcome state_after]. split; [reflexivity|].
       destruct (prep_eqb p' rp) eqn:E.
       + apply prep_eqb_eq in E; subst p'. exists T, li, pi. split; [assumption|reflexivity].
       + exists T, None, None. split; [assumption|]. f_equal.
         apply map_map_ext. intro v. apply spec_conv_compose; apply Rgt_not_eq, pc_pos.
     - (* loading *)
-      unfold a. rewrite convert_loading_step by assumption.
+      rewrite (convert_loading_step a M rml rmg) by (rewrite ?HK; try assumption; apply Ha).
       cbn [outcome state_after]. split; [reflexivity|].
       destruct (lrep_eqb l' rl) eqn:E.
       + apply lrep_eqb_eq in E; subst l'. exists T, li, pi. split; [assumption|reflexivity].
@@ -155,7 +157,7 @@ Section History.
         pose proof (lc_pos rm rl); pose proof (lc_pos rm l'); pose proof (mc_pos rm);
         pose proof (lc_pos (r_m r0) (r_l r0)); pose proof (mc_pos (r_m r0)). field. repeat split; lra.
     - (* material *)
-      unfold a, m. destruct (l_is_phys rl) eqn:Ephys.
+      unfold m. destruct (l_is_phys rl) eqn:Ephys.
       + rewrite convert_material_step_phys by assumption.
         cbn [outcome state_after]. split; [reflexivity|].
         destruct (mrep_eqb m' rm) eqn:E.
@@ -166,7 +168,7 @@ Section History.
           assert (0 < l_canon_phys M rml rmg rl) by (apply l_canon_phys_pos; assumption).
           pose proof (mc_pos rm); pose proof (mc_pos m'); pose proof (lc_pos (r_m r0) (r_l r0)); pose proof (mc_pos (r_m r0)).
           field. repeat split; lra.
-      + rewrite convert_material_step_frac by assumption.
+      + rewrite (convert_material_step_frac a M rml rmg) by (rewrite ?HK; try assumption; apply Ha).
         cbn [outcome state_after]. split; [reflexivity|].
         destruct (mrep_eqb m' rm) eqn:E.
         * apply mrep_eqb_eq in E; subst m'. exists T, li, pi. split; [assumption|reflexivity].
@@ -210,7 +212,7 @@ Section History.
         intros pre o' post E. destruct pre as [|x pre]; cbn in E; injection E as -> ->.
         + exact Hok.
         + cbn [run_ops fold_left]. apply (Hall pre o' post eq_refl). }
-    destruct (G ops r0 s0 H0) as [Ha Hr]. split; [exact Ha|]. split; [exact Hr|].
+    destruct (G ops r0 s0 H0) as [Hall Hr]. split; [exact Hall|]. split; [exact Hr|].
     destruct Hr as [T' [li' [pi' [_ ->]]]]. apply mk_state_valid.
   Qed.
 
@@ -232,7 +234,7 @@ Section History.
 End History.
 
 (* ------------------------------------------------------------------ deviations of the unchanged tree *)
-Definition st0 := mk_state (PAbs bar) (LMolar mmol) (MMass g) true 77 (ads_full 101325 28 0.03 0.0002) (mat_full 2 60) [1; 2] [3; 4] [false; false] None None.
+
 
 (* convert_temperature stores the normalised label, whatever the spelling of celsius *)
 Theorem temperature_label_normalised (s : iso RNum) u vb s' :
@@ -245,7 +247,7 @@ Proof.
   intro H; injection H as <-. reflexivity.
 Qed.
 
-Definition st_frac := mk_state (PAbs bar) LFraction (MMass g) true 77 (mkAds RNum (Some 101325) (Some 28) None None None None) (mat_full 2 60) [1] [3] [false] None None.
+Definition st_frac := mk_state (PAbs bar) LFraction (MMass g) true 77 (@ads_const RNum (Some 101325) (Some 28) None None None None) (mat_full 2 60) [1] [3] [false] None None.
 (* in fraction mode any material unit string is accepted for the same basis (the constructor does not check it either) *)
 Remark fraction_material_unit_unchecked :
   exists s', convert_material RNum st_frac (Some "mass"%string) (Some "bogus"%string) false = SOk s' /\ material_unit s' = Some "bogus"%string.
